@@ -401,7 +401,7 @@ impl<'a> Gen<'a> {
                 };
                 (Stmt::Expr(e), "callback-assigns")
             }
-            9 => match self.bound_of(&[Ty::List]) {
+            9 => match if self.rng.chance(3, 5) { self.bound_of(&[Ty::List]) } else { None } {
                 Some(l) => {
                     let target = self.alias_path(id(&l));
                     let e = match self.rng.below(16) {
@@ -426,10 +426,15 @@ impl<'a> Gen<'a> {
                     let e = if self.rng.chance(1, 3) { E::List(vec![e.clone(), e, id(&l)]) } else { e };
                     (Stmt::Expr(e), "builtin-on-bound")
                 }
-                None if self.bound_of(&[Ty::Str]).is_some() && self.rng.chance(1, 2) => {
+                None if self.bound_of(&[Ty::Str]).is_some() && self.rng.chance(3, 5) => {
                     let sname = self.bound_of(&[Ty::Str]).unwrap();
                     let target = self.alias_path(id(&sname));
-                    let e = match self.rng.below(10) {
+                    let other = self.bound_of(&[Ty::Str]).unwrap_or(sname.clone());
+                    let e = match self.rng.below(14) {
+                        10 => bin("+", id(&sname), id(&sname)),
+                        11 => bin("+", id(&sname), id(&other)),
+                        12 => call(id("reduce"), vec![E::List(vec![id(&other), id(&sname)]), E::Lam(vec![Arg::Req("acc".into()), Arg::Req("w".into())], Box::new(bin("+", id("acc"), id("w")))), id(&sname)]),
+                        13 => bin("+", E::List(vec![id(&sname), id(&other)]), id(&sname)),
                         0 => bin("+", target, st("!")),
                         1 => bin("+", st(">"), target),
                         2 => call(id(*self.rng.pick(&["uppercase", "lowercase", "trim"])), vec![target]),
@@ -600,6 +605,10 @@ pub fn gen_scenario(rng: &mut Rng) -> Scenario {
         let xs: Vec<E> = (0..g.rng.range(5, 9)).map(|_| g.small_num()).collect();
         g.bound.insert("a".to_string(), Ty::List);
         stmts.push(SStmt { stmt: Stmt::Expr(assign("a", E::List(xs))), kind: "bind-data".into() });
+        if g.rng.chance(1, 2) {
+            g.bound.insert("s".to_string(), Ty::Str);
+            stmts.push(SStmt { stmt: Stmt::Expr(assign("s", st("seed"))), kind: "bind-data".into() });
+        }
         if g.rng.chance(1, 2) {
             g.bound.insert("r".to_string(), Ty::Rec);
             stmts.push(SStmt { stmt: Stmt::Expr(assign("r", E::Rec(vec![RK::Static("k".into(), num(1)), RK::Static("m".into(), st("s")), RK::Static("x".into(), E::List(vec![num(1), num(2)]))]))), kind: "bind-data".into() });
@@ -1680,6 +1689,17 @@ pub fn main_batch(tier: &str, sessions: u64) -> i32 {
         }),
     );
     extra.insert("distinct_hash_seeds".into(), json!(agg.c.distinct_count("hash_seeds")));
+    extra.insert("seeds".into(), json!(agg.c.get("sessions")));
+    extra.insert("cli_cross_checks".into(), json!(agg.c.get("cli_cross_checks")));
+    {
+        let mut rare = serde_json::Map::new();
+        for (k, v) in &agg.c.n {
+            if let Some(kind) = k.strip_prefix("rare:") {
+                rare.insert(kind.to_string(), json!(v));
+            }
+        }
+        extra.insert("rare_conditions_hit".into(), serde_json::Value::Object(rare));
+    }
     extra.insert("sut_panics".into(), json!(agg.c.get("sut_panics")));
     extra.insert(
         "real_vs_stub".into(),
